@@ -249,7 +249,7 @@ class OutputFiles:
             # available (compressed files, in-memory buffers used with multiple cores),
             # so the format implied by the output file name is determined here.
             fileformat = self._fileformat_from_path(paths[0])
-            if fileformat == "fasta" or (fileformat == "fastq" and self._qualities):
+            if fileformat is not None:
                 kwargs["fileformat"] = fileformat
         binary_files = []
         for path in paths:
